@@ -53,6 +53,12 @@ def make_ws(cid, rnd):
             if "import pytest" not in ws["files"][p]:
                 ws["files"][p] = "import pytest\n" + ws["files"][p]
             ws["tags"].append("unused_extra")
+    # a request that sits on the same LINE NUMBER as the definition it resolves to, in another file
+    root = "/" + ws["order"][0].split("/")[1]
+    ws["files"][root + "/sl/conftest.py"] = "import pytest\n\n@pytest.fixture\ndef sl_fx():\n    return 1\n"
+    ws["files"][root + "/sl/test_sl.py"] = "import pytest\n\n\ndef test_sl(sl_fx):\n    pass\n\ndef test_sl2(sl_fx):\n    pass\n"
+    ws["order"] += [root + "/sl/conftest.py", root + "/sl/test_sl.py"]
+    ws["tags"].append("usage-on-definition-line-number")
     return ws
 
 
@@ -149,6 +155,7 @@ def run_cli(binp, args, threads):
 
 def explore_binary(r, h1, rnd, n, stdlib):
     binp = core.build_binary()
+    nsrv = 6 if r.tier == "quick" else 40
     base = tempfile.mkdtemp(prefix="verif_c20_")
     bad, nruns, kinds = [], 0, collections.Counter()
     try:
@@ -225,6 +232,32 @@ def explore_binary(r, h1, rnd, n, stdlib):
                 if set(ls) | set(lo) != set(la) or set(ls) & set(lo):
                     fail("--skip-unused / --only-unused do not partition the list", skip=sorted(ls), only=sorted(lo), all=sorted(la))
                 kinds["unused_entries"] += len(jents)
+                # the counts of `fixtures list` against the references the REAL SERVER reports on each definition's name
+                if kinds["server_trees"] < nsrv:
+                    import lsp
+                    kinds["server_trees"] += 1
+                    srv = lsp.Server(binp, root=root, timeout=30)
+                    try:
+                        srv.wait_for_log("Workspace scan complete", timeout=30)
+                        srv_count = collections.Counter()
+                        for x in lib["refs"]:
+                            d = x["def"]
+                            if d["third"]:
+                                continue
+                            locs = srv.references(d["path"], d["line"] - 1, d["start"], include_declaration=False) or []
+                            n_ = len([l for l in locs if not (lsp.uri_to_path(l["uri"]) == d["path"] and l["range"]["start"]["line"] == d["line"] - 1
+                                                              and l["range"]["start"]["character"] == d["start"])])
+                            srv_count[(rel(d["path"]), d["name"])] += n_
+                            kinds["server_reference_requests"] += 1
+                        for k, (cnt, au) in la.items():
+                            if k in srv_count and cnt != srv_count[k]:
+                                fail("count printed by `fixtures list` differs from the number of references the running server reports", key=k, printed=cnt, server=srv_count[k])
+                                break
+                    finally:
+                        try:
+                            srv.shutdown()
+                        except Exception:
+                            pass
             kinds["trees"] += 1
             if fails:
                 # is the tree in an order-sensitive class?  decided by the Coq predicate on the
